@@ -11,7 +11,7 @@ extension product is an uninterpreted function emul whose coefficient formulas a
 import os
 import re
 
-from vf.extract import extract_item
+from vf.extract import extract_item, match_brace
 from vf.unit import Unit, _find_all
 from units.air import PRELUDE as AIR_PRELUDE
 
@@ -265,6 +265,17 @@ def build():
     e.rewrite_re('R11', r'\bAB::(Var|Expr)\b(?!::)', 'R', min_count=0)
     e.rewrite_re('R6', r'(\w+) \+= ([^;]+);', r'\1 = \1 + \2;', min_count=3)
     e.rewrite_re('R5', r'for kk in (\d)\.\.=k_max \{', r'for kk in \1..k_max + 1 {', min_count=4)
+    # R5 (general): `for (A, B) in (LO..HI).step_by(K).enumerate() {` -> counting while loop (body verbatim; the increments are appended at the end of the body)
+    while True:
+        m_ = re.search(r'for \((\w+), (\w+)\) in \(([^;{]+?)\.\.([^;{]+?)\)\.step_by\(([^;{]+?)\)\.enumerate\(\) (\{)', e.body)
+        if not m_:
+            break
+        c_ = match_brace(e.body, m_.start(6))
+        a_, b_, lo_, hi_, k_ = m_.group(1), m_.group(2), m_.group(3).strip(), m_.group(4).strip(), m_.group(5).strip()
+        e.body = (e.body[:m_.start()] + f'let mut {a_}_c: usize = 0; let mut {b_}_c: usize = {lo_}; while {b_}_c < {hi_} {{ let {a_} = {a_}_c; let {b_} = {b_}_c;' + e.body[m_.start(6) + 1:c_]
+                  + f' {a_}_c = {a_}_c + 1; {b_}_c = {b_}_c + {k_}; }}' + e.body[c_ + 1:])
+        e.rewrites.append(('R5', '`for (i, x) in (LO..HI).step_by(K).enumerate()` -> counting while loop', ''))
+    e.rewrite_re('R11', r'&(\w+)\[\.\.\]', r'\1', min_count=0)
 
     e.requires('wf', f'({ROW}).wf() && lane_width == NMAIN * D')
     e.ensures('constraints_are_exactly_the_selector_gated_runner_relations', f'final(builder).ok@ == (old(builder).ok@ && ({ROW}).row_ok())')
@@ -285,6 +296,11 @@ def build():
         ('odd_tail_leg_is_one_runner_step_into_out', r'^sel_kk\b.*\bint_b\[i\]', 'e_.v@ == r.p_tail(kk as int, t_, i as int)'),
         ('lane_horner_row_is_one_runner_step', r'^next_sel_horner\b', 'e_.v@ == r.p_single(lane as int, i as int)'),
     ]
+    # the leg scaffolding (ghost step counter t_) hangs on the `while s < kk` walk; a restructured walk gets no scaffolding and is judged by the postcondition alone
+    HAS_W = 'while s < kk' in e.body
+    if not HAS_W:
+        PINS = [p_ for p_ in PINS if 't_' not in p_[2]]
+        e.attr('#[verifier::exec_allows_no_decreases_clause]')     # termination is not claimed for a restructured walk
     PINNED = e.pin_call_args_keyed('builder.assert_zero(', PINS)
 
     # ------------------------------------------------------------------ ghost scaffolding (every loop carries its own context: small queries)
@@ -299,8 +315,10 @@ def build():
          + vec('b_sq', 'r.bsq()'))
 
     # loop-end proof steps first (loop headers are located textually; invariants added later contain braces)
-    e.at_loop_end('while s < kk', 'proof { assert(builder.ok@ == (ok_leg && r.leg_ok(kk as int, t_))); t_ = t_ + 1; }')
-    e.at_loop_end('for kk in 3..k_max + 1', 'proof { assert(builder.ok@ == (ok_kk && r.legs_ok(kk as int))); }', nth=1)
+    if HAS_W:
+        e.at_loop_end('while s < kk', 'proof { assert(builder.ok@ == (ok_leg && r.leg_ok(kk as int, t_))); t_ = t_ + 1; }')
+    if HAS_W:
+        e.at_loop_end('for kk in 3..k_max + 1', 'proof { assert(builder.ok@ == (ok_kk && r.legs_ok(kk as int))); }', nth=1)
     e.at_loop_end('for lane in 0..self.lanes', 'proof { assert(builder.ok@ == (okl && r.lane_ok(ln))); }')
     e.at_start(f'let ghost r = {ROW}; let ghost ok0 = builder.ok@;')
     e.loop('for lane in 0..self.lanes', invariants=[('ctx', G), ('lanes_done', 'builder.ok@ == (ok0 && forall|l: int| 0 <= l < lane ==> #[trigger] r.lane_ok(l))')])
@@ -325,9 +343,9 @@ def build():
                                        vec('c_s_b', 'emul(r.cv(s as int), r.b(0))'), vec('a_s_b', 'emul(r.av(s as int), r.b(0))')])
     # loops in textual order; the later ones first so that earlier `nth` indices stay valid
     coef_loop('lane_horner_row_is_one_runner_step', 'ok_single', 'r.p_single(ln, j)', f'{G} && {L} && {N}')
-    coef_loop('odd_tail_leg_is_one_runner_step_into_out', 'ok_tail', 'r.p_tail(kk as int, t_, j)', LEG + ' && ' + vec('int_b', 'emul(r.iv_(t_), r.b(0))'))
-    coef_loop('middle_pair_leg_is_two_runner_steps_into_next_intermediate', 'ok_mid', 'r.p_pair(kk as int, t_, r.iv_(t_ + 1), j)', PAIR + ' && ' + vec('int_next', 'r.iv_(t_ + 1)'))
-    coef_loop('last_pair_leg_is_two_runner_steps_into_out', 'ok_last', 'r.p_pair(kk as int, t_, r.out(0), j)', PAIR)
+    if HAS_W: coef_loop('odd_tail_leg_is_one_runner_step_into_out', 'ok_tail', 'r.p_tail(kk as int, t_, j)', LEG + ' && ' + vec('int_b', 'emul(r.iv_(t_), r.b(0))'))
+    if HAS_W: coef_loop('middle_pair_leg_is_two_runner_steps_into_next_intermediate', 'ok_mid', 'r.p_pair(kk as int, t_, r.iv_(t_ + 1), j)', PAIR + ' && ' + vec('int_next', 'r.iv_(t_ + 1)'))
+    if HAS_W: coef_loop('last_pair_leg_is_two_runner_steps_into_out', 'ok_last', 'r.p_pair(kk as int, t_, r.out(0), j)', PAIR)
     coef_loop('unpacked_horner_row_is_one_runner_step', 'ok_fb', 'r.p_fallback(j)', f'{G} && {L} && {N} && ln == 0 && next_sel_single.v@ == r.nf(0, P_SEL_HORNER) - r.sum_sel(r.pn, 2, r.k + 1)')
     n_k2 = e.loop_ordinal_enclosing('for i in ', '// @@A:packed_k2_is_two_runner_steps\n')
     if n_k2 is not None:
@@ -365,20 +383,21 @@ def build():
     LEGS = f'{G} && {L} && {P} && r.xpw() >= r.k - 1 && r.ep() >= 0'
     e.before('for kk in 3..k_max + 1', 'let ghost ok_legs = builder.ok@;', nth=1)
     e.loop('for kk in 3..k_max + 1', invariants=[('ctx', LEGS), ('legs_done', 'builder.ok@ == (ok_legs && forall|q: int| 3 <= q < kk ==> #[trigger] r.legs_ok(q))')], nth=1)
-    e.before('while s < kk', 'let ghost ok_kk = builder.ok@; let ghost mut t_: int = 0;')
-    e.loop('while s < kk', invariants=[
-        ('ctx', LEGS + ' && sel_kk.v@ == r.selk(r.pl, kk as int) && 3 <= kk <= k_max'),
-        ('position', '2 <= s && 0 <= t_ && s <= 2 + 2 * t_ && (s < kk ==> s == 2 + 2 * t_ && curr_int_slot == t_)'),
-        ('legs_of_this_arity_done', 'builder.ok@ == (ok_kk && forall|q: int| 0 <= q < t_ ==> #[trigger] r.leg_ok(kk as int, q))'),
-    ], decreases='kk - s')
-    e.before('let int_curr = &local', 'let ghost ok_leg = builder.ok@; proof { lemma_xw(r); lemma_slot(r, t_); lemma_ac(r, s as int); }')
-    e.after('let c_s = &local[off_s + D..off_s + 2 * D];', 'proof { assert(iv(int_curr@) =~= r.iv_(t_)); assert(iv(a_s@) =~= r.av(s as int)); assert(iv(c_s@) =~= r.cv(s as int)); }')
-    e.before('let off_sp1 = ac_base + 2 * s * D;', 'proof { lemma_ac(r, s as int + 1); }')
-    e.after('let c_sp1 = &local[off_sp1 + D..off_sp1 + 2 * D];', 'proof { assert(iv(a_sp1@) =~= r.av(s as int + 1)); assert(iv(c_sp1@) =~= r.cv(s as int + 1)); }')
-    if 'let int_next = &local' in e.body:
-        e.before('let int_next = &local', 'proof { lemma_slot(r, t_ + 1); }')
-    if len(_find_all('let int_next = &local[extra_main + (curr_int_slot + 1) * D ..extra_main + (curr_int_slot + 2) * D];', e.body)) > 0:
-        e.after('let int_next = &local[extra_main + (curr_int_slot + 1) * D ..extra_main + (curr_int_slot + 2) * D];', 'proof { assert(iv(int_next@) =~= r.iv_(t_ + 1)); }')
+    if HAS_W:
+        e.before('while s < kk', 'let ghost ok_kk = builder.ok@; let ghost mut t_: int = 0;')
+        e.loop('while s < kk', invariants=[
+            ('ctx', LEGS + ' && sel_kk.v@ == r.selk(r.pl, kk as int) && 3 <= kk <= k_max'),
+            ('position', '2 <= s && 0 <= t_ && s <= 2 + 2 * t_ && (s < kk ==> s == 2 + 2 * t_ && curr_int_slot == t_)'),
+            ('legs_of_this_arity_done', 'builder.ok@ == (ok_kk && forall|q: int| 0 <= q < t_ ==> #[trigger] r.leg_ok(kk as int, q))'),
+        ], decreases='kk - s')
+        e.before('let int_curr = &local', 'let ghost ok_leg = builder.ok@; proof { lemma_xw(r); lemma_slot(r, t_); lemma_ac(r, s as int); }')
+        e.after('let c_s = &local[off_s + D..off_s + 2 * D];', 'proof { assert(iv(int_curr@) =~= r.iv_(t_)); assert(iv(a_s@) =~= r.av(s as int)); assert(iv(c_s@) =~= r.cv(s as int)); }')
+        e.before('let off_sp1 = ac_base + 2 * s * D;', 'proof { lemma_ac(r, s as int + 1); }')
+        e.after('let c_sp1 = &local[off_sp1 + D..off_sp1 + 2 * D];', 'proof { assert(iv(a_sp1@) =~= r.av(s as int + 1)); assert(iv(c_sp1@) =~= r.cv(s as int + 1)); }')
+        if 'let int_next = &local' in e.body:
+            e.before('let int_next = &local', 'proof { lemma_slot(r, t_ + 1); }')
+        if len(_find_all('let int_next = &local[extra_main + (curr_int_slot + 1) * D ..extra_main + (curr_int_slot + 2) * D];', e.body)) > 0:
+            e.after('let int_next = &local[extra_main + (curr_int_slot + 1) * D ..extra_main + (curr_int_slot + 2) * D];', 'proof { assert(iv(int_next@) =~= r.iv_(t_ + 1)); }')
     return finish(u, e)
 
 
